@@ -442,6 +442,74 @@ pub fn gen_case_with(rng: &mut Rng, knobs: Knobs, gas_limit: Word, custom_script
     Case { checked, storage, params, script, call_ids, listed, deployed, gas_limit }
 }
 
+/// One world (2-4 deployed contracts, one storage) and `k` transactions over it whose contract-input SETS and ORDERS
+/// differ (random subsets incl. the empty one, shuffled input order, contract outputs in a different order), each with
+/// its own script that addresses listed, deployed-but-unlisted and absent contracts. For instance-reuse checks.
+pub fn gen_world_cases(rng: &mut Rng, knobs: Knobs, gas_limit: Word, k: usize) -> Vec<Case> {
+    let seed = rng.next();
+    let mut tb = TestBuilder::new(seed);
+    let n_contracts = rng.range(2, 4) as usize;
+    let assets = [AssetId::zeroed(), AssetId::new(rng.arr32()), AssetId::new(rng.arr32()), AssetId::new(rng.arr32())];
+    let mut call_ids = [ContractId::zeroed(); N_CALLS];
+    for c in call_ids.iter_mut() { *c = ContractId::new(rng.arr32()); }
+    let mut deployed = vec![];
+    for i in 0..n_contracts {
+        let callable: Vec<usize> = deployed.clone();
+        let mut g = GenCtx { rng, knobs, internal: true, callable, unlisted: vec![], self_idx: Some(i), depth: 0 };
+        g.knobs.max_blocks = knobs.max_blocks.min(5);
+        g.knobs.unlisted_pm = 0;
+        let code = program(&mut g);
+        let bal = Some((assets[rng.below(2) as usize], 10 + rng.below(1000)));
+        let created = tb.setup_contract(code, bal, None);
+        call_ids[i] = created.contract_id;
+        deployed.push(i);
+    }
+    let storage = tb.get_storage().clone();
+    let mut out = vec![];
+    for _ in 0..k {
+        // subset + order
+        let mut listed: Vec<usize> = deployed.iter().copied().filter(|_| rng.chance(1, 2)).collect();
+        for i in (1..listed.len()).rev() { let j = rng.below(i as u64 + 1) as usize; listed.swap(i, j); }
+        let mut unlisted: Vec<usize> = deployed.iter().copied().filter(|i| !listed.contains(i)).collect();
+        if unlisted.is_empty() || rng.chance(1, 4) { unlisted.extend(n_contracts..N_CALLS); }
+        let script: Vec<Instruction> = {
+            let mut g = GenCtx { rng, knobs, internal: false, callable: listed.clone(), unlisted, self_idx: None, depth: 0 };
+            program(&mut g)
+        };
+        let mut data = Vec::with_capacity(DATA_LEN);
+        for i in 0..N_CALLS {
+            data.extend_from_slice(call_ids[i].as_ref());
+            data.extend_from_slice(&rng.word().to_be_bytes());
+            data.extend_from_slice(&rng.word().to_be_bytes());
+        }
+        for a in assets.iter() { data.extend_from_slice(a.as_ref()); }
+        for i in 0..4u8 { let mut key = [0u8; 32]; key[31] = i; data.extend_from_slice(&key); }
+        data.extend_from_slice(&rng.arr32());
+        data.extend_from_slice(&rng.bytes(64));
+        assert_eq!(data.len(), DATA_LEN);
+        tb.start_script(script.clone(), data);
+        tb.script_gas_limit(gas_limit);
+        tb.gas_price(0);
+        tb.variable_output(assets[0]);
+        // contract inputs at varying positions among the other inputs
+        let before = rng.below(3);
+        if before >= 1 { tb.fee_input(); }
+        if before >= 2 { tb.coin_input(assets[1], 1 + rng.below(1000)); }
+        for &i in &listed { tb.contract_input(call_ids[i]); }
+        if before < 1 { tb.fee_input(); }
+        if before < 2 { tb.coin_input(assets[1], 1 + rng.below(1000)); }
+        tb.coin_input(assets[0], 1_000 + rng.below(1000));
+        let mut outs = listed.clone();
+        if rng.chance(1, 2) { outs.reverse(); }
+        if rng.chance(1, 2) { tb.change_output(assets[1]); }
+        for &i in &outs { tb.contract_output(&call_ids[i]); }
+        tb.change_output(assets[0]);
+        let checked = tb.build();
+        out.push(Case { checked, storage: storage.clone(), params: ConsensusParameters::standard(), script, call_ids, listed, deployed: deployed.clone(), gas_limit });
+    }
+    out
+}
+
 /// a case with given contract programs (slot i of the call structs = contract i, all listed), a given script and given
 /// `(a, b)` call parameters per slot
 pub fn fixed_case(seed: u64, contracts: &[Vec<Instruction>], script: Vec<Instruction>, slot_ab: &[(u64, u64)], gas_limit: Word) -> Case {
